@@ -319,6 +319,70 @@ theorem ci_nested_greater (H : Hyp P cfg cm cv cn tm tv tn) (c₁ c₂ : α)
   show tm - cm - SE * (D).ppf c₂ ≤ x
   linarith
 
+/-- **nesting, one-sided (`less`) absolute interval** -/
+theorem ci_nested_less (H : Hyp P cfg cm cv cn tm tv tn) (c₁ c₂ : α)
+    (h0 : 0 < c₁) (h12 : c₁ ≤ c₂) (h1 : c₂ < 1) (h : cfg.alternative = "less") (hi x : α)
+    (hhi : (RatioOfMeans.analyze_stats P { cfg with confidence_level := c₁ } cm cv cn tm tv tn).effect_size_ci_upper
+      = Bound.fin hi)
+    (hx : x ≤ hi) :
+    Bound.contains
+      (RatioOfMeans.analyze_stats P { cfg with confidence_level := c₂ } cm cv cn tm tv tn).effect_size_ci_lower
+      (RatioOfMeans.analyze_stats P { cfg with confidence_level := c₂ } cm cv cn tm tv tn).effect_size_ci_upper x := by
+  have H1 := H.withLevel c₁ h0 (lt_of_le_of_lt h12 h1)
+  have H2 := H.withLevel c₂ (lt_of_lt_of_le h0 h12) h1
+  have a2 := (fields_less H1 h).2.1
+  have b2 := (fields_less H2 h).2.1
+  have b3 := (ci_unbounded_less P { cfg with confidence_level := c₂ } cm cv cn tm tv tn h).1
+  rw [a2] at hhi
+  rw [b2, b3]
+  have hhi' := Bound.fin.inj hhi
+  have hm : (D).ppf c₁ ≤ (D).ppf c₂ :=
+    H.dist.ppf_mono h0 (lt_of_le_of_lt h12 h1) (lt_of_lt_of_le h0 h12) h1 h12
+  have := mul_le_mul_of_nonneg_left hm H.se_pos.le
+  change tm - cm + SE * (D).ppf c₁ = hi at hhi'
+  simp only [Bound.contains, Bound.lowerLE, Bound.upperGE, true_and]
+  show x ≤ tm - cm + SE * (D).ppf c₂
+  linarith
+
+/-- **nesting, two-sided relative interval** (means of equal sign): a higher level contains the lower-level
+interval of the relative effect -/
+theorem rel_ci_nested_two_sided (H : Hyp P cfg cm cv cn tm tv tn) (hsign : 0 < tm / cm) (c₁ c₂ : α)
+    (h0 : 0 < c₁) (h12 : c₁ ≤ c₂) (h1 : c₂ < 1)
+    (hg : cfg.alternative ≠ "greater") (hl : cfg.alternative ≠ "less") (lo hi x : α)
+    (hlo : (RatioOfMeans.analyze_stats P { cfg with confidence_level := c₁ } cm cv cn tm tv tn).rel_effect_size_ci_lower
+      = Bound.fin lo)
+    (hhi : (RatioOfMeans.analyze_stats P { cfg with confidence_level := c₁ } cm cv cn tm tv tn).rel_effect_size_ci_upper
+      = Bound.fin hi)
+    (hx : lo ≤ x ∧ x ≤ hi) :
+    Bound.contains
+      (RatioOfMeans.analyze_stats P { cfg with confidence_level := c₂ } cm cv cn tm tv tn).rel_effect_size_ci_lower
+      (RatioOfMeans.analyze_stats P { cfg with confidence_level := c₂ } cm cv cn tm tv tn).rel_effect_size_ci_upper x := by
+  have H1 := H.withLevel c₁ h0 (lt_of_le_of_lt h12 h1)
+  have H2 := H.withLevel c₂ (lt_of_lt_of_le h0 h12) h1
+  obtain ⟨_, _, _, a4, a5⟩ := fields_two_sided H1 hg hl
+  obtain ⟨_, _, _, b4, b5⟩ := fields_two_sided H2 hg hl
+  rw [a4] at hlo; rw [a5] at hhi
+  rw [b4, b5]
+  have hlo' := Bound.fin.inj hlo
+  have hhi' := Bound.fin.inj hhi
+  have hm : (DL).ppf ((1 + c₁) / 2) ≤ (DL).ppf ((1 + c₂) / 2) :=
+    H.distLog.ppf_mono (by linarith) (by linarith) (by linarith) (by linarith) (by linarith)
+  have hmul := mul_le_mul_of_nonneg_left hm H.seLog_nonneg
+  have hup : P.exp (SEL * (DL).ppf ((1 + c₁) / 2)) ≤ P.exp (SEL * (DL).ppf ((1 + c₂) / 2)) :=
+    H.exp_mono.monotone hmul
+  have hdown : P.exp (-(SEL * (DL).ppf ((1 + c₂) / 2))) ≤ P.exp (-(SEL * (DL).ppf ((1 + c₁) / 2))) :=
+    H.exp_mono.monotone (by linarith)
+  simp only [Bound.contains, Bound.lowerLE, Bound.upperGE]
+  change tm / cm * P.exp (-(SEL * (DL).ppf ((1 + c₁) / 2))) - 1 = lo at hlo'
+  change tm / cm * P.exp (SEL * (DL).ppf ((1 + c₁) / 2)) - 1 = hi at hhi'
+  have e1 := mul_le_mul_of_nonneg_left hdown hsign.le
+  have e2 := mul_le_mul_of_nonneg_left hup hsign.le
+  constructor
+  · show tm / cm * P.exp (-(SEL * (DL).ppf ((1 + c₂) / 2))) - 1 ≤ x
+    linarith [hx.1]
+  · show x ≤ tm / cm * P.exp (SEL * (DL).ppf ((1 + c₂) / 2)) - 1
+    linarith [hx.2]
+
 end
 
 /-! ## The hypotheses are met by every valid input, given the laws of the primitives -/
